@@ -152,18 +152,21 @@ Definition packet_of (o : out) (ro : obj) : res bytes :=
   do data <- py_encode ro;
   t_build tcp (o_tid o) dflt_pid (o_uid o) fc data.
 
-Fixpoint packets_of (cfg : scfg) (l : units slavectx) (d : delivery) (r : req) (os : list out) : res bytes :=
+(* [pk] = send(message) of the front-end: framer.buildPacket of the framing in use *)
+Definition packer := out -> obj -> res bytes.
+
+Fixpoint packets_of (pk : packer) (cfg : scfg) (l : units slavectx) (d : delivery) (r : req) (os : list out) : res bytes :=
   match os with
   | [] => Ok []
   | o :: t =>
       do ro <- response_obj cfg l d r o;
-      do p <- packet_of o ro;
-      do q <- packets_of cfg l d r t;
+      do p <- pk o ro;
+      do q <- packets_of pk cfg l d r t;
       Ok (p ++ q)
   end.
 
 (* the callback `self.execute(request)` on one delivery: new stores, bytes written *)
-Definition handle_one (sk : skel) (cfg : scfg) (l : units slavectx) (d : delivery) : res (units slavectx * bytes) :=
+Definition handle_one (pk : packer) (sk : skel) (cfg : scfg) (l : units slavectx) (d : delivery) : res (units slavectx * bytes) :=
   do o <- py_decode true (d_pdu d);
   do fc <- obj_fc o;
   match req_of_obj o with
@@ -172,18 +175,18 @@ Definition handle_one (sk : skel) (cfg : scfg) (l : units slavectx) (d : deliver
       let '(l', outs, exn) := respond slavectx GenServer.code sk cfg l (dreq_of d fc r) in
       match exn with
       | Some e => Raise e
-      | None => do bs <- packets_of cfg l d r outs; Ok (l', bs)
+      | None => do bs <- packets_of pk cfg l d r outs; Ok (l', bs)
       end
   end.
 
-Fixpoint handle_all (sk : skel) (cfg : scfg) (l : units slavectx) (ds : list delivery)
+Fixpoint handle_all (pk : packer) (sk : skel) (cfg : scfg) (l : units slavectx) (ds : list delivery)
   : units slavectx * bytes * option pyexn :=
   match ds with
   | [] => (l, [], None)
   | d :: t =>
-      match handle_one sk cfg l d with
+      match handle_one pk sk cfg l d with
       | Raise e => (l, [], Some e)
-      | Ok (l1, b1) => let '(l2, b2, e) := handle_all sk cfg l1 t in (l2, b1 ++ b2, e)
+      | Ok (l1, b1) => let '(l2, b2, e) := handle_all pk sk cfg l1 t in (l2, b1 ++ b2, e)
       end
   end.
 
@@ -193,19 +196,20 @@ Fixpoint handle_all (sk : skel) (cfg : scfg) (l : units slavectx) (ds : list del
 Definition framer_cfg (sk : skel) (cfg : scfg) (l : units slavectx) : FrBaseA.cfg :=
   {| c_units := unit_list sk cfg (u_keys slavectx l); c_single := Some (cf_single cfg) |}.
 
-Record e2e_result := {
+Record e2e_result (FS : Type) := {
   e_units : units slavectx;          (* the datastores afterwards *)
   e_out : bytes;                     (* everything written to the socket, in order *)
-  e_framer : tstate;                 (* framer state (buffered bytes) afterwards *)
+  e_framer : FS;                     (* framer state (buffered bytes) afterwards *)
   e_stop : option pyexn;             (* an exception escaped processIncomingPacket: the handler stopped *)
   e_fault : option pyexn             (* a branch outside the model was reached (never, in the proved domain) *)
 }.
+Arguments e_units {FS}. Arguments e_out {FS}. Arguments e_framer {FS}. Arguments e_stop {FS}. Arguments e_fault {FS}.
 
 (* [eof_on_empty]: the threaded handler takes recv() == b'' as end of stream and leaves its loop;
    the asyncio / Twisted callbacks have no such test.  An exception escaping the framer ends the
    threaded handler's loop (its catch-all clears `running`). *)
 Fixpoint run_reads (sk : skel) (cfg : scfg) (eof_on_empty : bool) (st : tstate) (l : units slavectx)
-                   (chunks : list bytes) : e2e_result :=
+                   (chunks : list bytes) : e2e_result tstate :=
   match chunks with
   | [] => {| e_units := l; e_out := []; e_framer := st; e_stop := None; e_fault := None |}
   | c :: cs =>
@@ -213,7 +217,7 @@ Fixpoint run_reads (sk : skel) (cfg : scfg) (eof_on_empty : bool) (st : tstate) 
       then {| e_units := l; e_out := []; e_framer := st; e_stop := None; e_fault := None |}
       else
         let '(st1, ds, o) := t_recv base tcp e2e_dec (framer_cfg sk cfg l) st c in
-        let '(l1, b1, flt) := handle_all sk cfg l ds in
+        let '(l1, b1, flt) := handle_all packet_of sk cfg l ds in
         match flt, o with
         | Some e, _ => {| e_units := l1; e_out := b1; e_framer := st1; e_stop := None; e_fault := Some e |}
         | None, Done =>
@@ -228,5 +232,5 @@ Fixpoint run_reads (sk : skel) (cfg : scfg) (eof_on_empty : bool) (st : tstate) 
 (* the Modbus/TCP server on one connection: front-end skeleton, configuration, hosted datastores,
    the reads -> final datastores and the bytes written *)
 Definition tcp_server_run (sk : skel) (cfg : scfg) (eof_on_empty : bool) (l : units slavectx) (chunks : list bytes)
-  : e2e_result :=
+  : e2e_result tstate :=
   run_reads sk cfg eof_on_empty (t_init tcp) l chunks.
